@@ -1,7 +1,7 @@
 """C02 - closed-system conservation of elements and charge in reaction steps (batch, MIX, RUN_CELLS, histories)."""
 import os, math
 from hypothesis import strategies as st
-from .. import lib, cellgen as G, rawparse as R, inv_util as U, formula as F, dbparse
+from .. import lib, cellgen as G, rawparse as R, inv_util as U, formula as F
 from ..core import Violation, Discard
 
 ID = "C02"
@@ -23,12 +23,10 @@ ASSUMPTIONS = ["DUMP -all writes every stored reactant with >=14 significant dig
                "defines more steps)",
                "REACTION / KINETICS formulas generated are electrically neutral (the engine does not track reactant charge)",
                "charge scale for the relative tolerance = total moles of non-H/O elements in the cell (proxy for the ionic equivalents)",
-               "a SURFACE definition with an explicit constant-thickness diffuse layer that has never been used owns the diffuse-layer "
-               "water W_s = area x grams x thickness x 1000 kg (manual 1999, eq. 76) although its dump still shows -mass_water 0; this "
-               "water (2 H + 1 O per 18.016 g, weights from the database text) is counted in the inventory before the step",
                "amounts below 1e-20 mol are the engine's representation of zero (MIN_TOTAL 1e-25, solid solutions 1e-27)",
                "excluded by construction (counted in classes): KNOBS -iterations > 100 for cells with SOLID_SOLUTIONS + fixed-volume "
-               "GAS_PHASE (known finding: mass lost/created at the switch to numerical derivatives), CVODE for rates that overshoot "
+               "GAS_PHASE (known finding: mass lost/created at the switch to numerical derivatives), never-equilibrated -donnan "
+               "surfaces with phreeqc.dat/wateq4f.dat (known finding: diffuse-layer water created at first contact), CVODE for rates that overshoot "
                "the reactant, kinetic uptake of substances not abundantly present in every solution (engine does not return)"]
 TECHNIQUE = "property-based testing (Hypothesis) with an independent inventory oracle over DUMP text"
 LEVEL_TEXT = ("Exploration: thousands of generated cell histories per run; for every step every element (incl. H, O) and the net "
@@ -53,14 +51,6 @@ def prepare(tier):
 
 
 _phase_cache = {}
-_gfw_cache = {}
-
-
-def water_gfw(db):
-    """g/mol of H2O from the element weights written in the database text"""
-    if db not in _gfw_cache:
-        _gfw_cache[db] = dbparse.load(db).formula_weight("H2O")
-    return _gfw_cache[db]
 
 
 def phases_for(db):
@@ -82,24 +72,13 @@ def per_entity(D, keys, phases):
     return out
 
 
-def check_step(info, D0, D1, phases, gfw_h2o=18.016):
+def check_step(info, D0, D1, phases):
     """-> dict(moved=bool, classes=[...]); raises Violation"""
     bkeys = [(k, n) for k, n, w in info["before"]]
     wts = {(k, n): w for k, n, w in info["before"]}
     akeys = [(k, n) for k, n in info["after"]]
     B = per_entity(D0, bkeys, phases)
     A = per_entity(D1, akeys, phases)
-    # a never-used SURFACE definition with an explicit constant-thickness diffuse layer owns W_s = area x thickness of
-    # water (manual eq. 76) that its dump does not list yet (-mass_water 0): part of the inventory before the step
-    dlw = 0.0
-    for k in bkeys:
-        if k[0] == "SURFACE":
-            w = R.implied_dl_water(D0[k])
-            if w > 0:
-                dlw += w
-                els = B[k][0]
-                els["H"] = els.get("H", 0.0) + 2.0 * w * 1000.0 / gfw_h2o
-                els["O"] = els.get("O", 0.0) + w * 1000.0 / gfw_h2o
     before, scale, bz, zscale = {}, {}, 0.0, 0.0
     for k, (els, z, am) in B.items():
         w = wts[k]
@@ -172,8 +151,6 @@ def check_step(info, D0, D1, phases, gfw_h2o=18.016):
                     if v0 == 0 and v > 0:
                         appeared = True
     cls = []
-    if dlw > 0:
-        cls.append("dl_water_implied")
     if exhausted:
         cls.append("reactant_exhausted")
     if appeared:
@@ -216,11 +193,10 @@ def run_case(case, ctx, punch=None, on_step=None):
 
 def check_case(case, ctx):
     phases = phases_for(case["db"]) if case["db"] in G.DB else None
-    gfw = water_gfw(case["db"]) if case["db"] in G.DB else None
     res = []
 
     def on_step(k, info, D0, D1, I):
-        r = check_step(info, D0, D1, phases, gfw)
+        r = check_step(info, D0, D1, phases)
         r["kinds"] = info["kinds"]
         r["nsteps"] = info["nsteps"]
         res.append(r)
@@ -270,6 +246,8 @@ def check_case(case, ctx):
                 classes.append("exch_HX")
         if isinstance(s.get("surf"), dict):
             classes.append("surf_equilibrate" if s["surf"]["equil"] is not None else "surf_defined")
+            if s["surf"].get("dl_equil_forced"):
+                classes.append("excluded_trigger:unequilibrated_donnan_surface_defined_with_equilibrate")
         if isinstance(s.get("ss"), dict) and any(x["nonideal"] for x in s["ss"]["sss"]):
             classes.append("ss_nonideal")
         if isinstance(s.get("kin"), dict):
